@@ -50,6 +50,8 @@ impl<'t> Worker<'t> {
         if self.sent.chars().is_empty() {
             return;
         }
+        // Discards the result of a previous call for the same sentence.
+        self.top_nodes.clear();
         self.tokenizer.build_lattice(&self.sent, &mut self.lattice);
         self.lattice.append_top_nodes(&mut self.top_nodes);
     }
